@@ -1,6 +1,7 @@
 package props
 
 import (
+	"context"
 	"fmt"
 	"strconv"
 	"strings"
@@ -88,6 +89,19 @@ func runC09(c *Ctx) {
 			return
 		}
 		mc.Take()
+		if idx%3 == 1 {
+			// connect attempts that are refused because the client is connected leave the connection as it is -
+			// also when the context they were given ends afterwards
+			ctx, cancel := context.WithCancel(context.Background())
+			e2 := s.Conn.Connect()
+			e1 := s.Conn.ConnectContext(ctx)
+			cancel()
+			if e1 == nil || e2 == nil {
+				c.R.Inconcl(fmt.Sprintf("%s: a second Connect on a connected client was not refused", Case("run", idx)))
+				return
+			}
+			c.R.Count("runs_after_refused_connects", 1)
+		}
 
 		var mu sync.Mutex
 		issued := map[string]string{}    // "sender counter" -> payload
@@ -239,6 +253,14 @@ func runC09(c *Ctx) {
 		close(stop)
 		ctl.Wait()
 		if !ok {
+			if ds := rig.ProveDead(WaitShort); ds.Dead && !mc.Closed() {
+				c.R.Violate(rig.Violation{Sig: "c09|line-never-written", Detail: "the line \"VSYNC end\" handed to Raw on a connection that is up never reached the server (nothing can move any more: " + ds.Signature + ")", Case: Case("run", idx)})
+				s.Release()
+				if c.R.NumViolations() > 10 {
+					return
+				}
+				continue
+			}
 			c.R.Inconcl(fmt.Sprintf("%s: final separator not seen", Case("run", idx)))
 			return
 		}
